@@ -115,6 +115,14 @@ class Ptr:
         self.rec = rec
 
 
+class EndPtr(Ptr):
+    """one past the end of the table that starts at `rec`: `end - start` is the table's byte length"""
+    __slots__ = ('size',)
+
+    def __init__(self, rec, size):
+        self.rec, self.size = rec, size
+
+
 class LV:
     __slots__ = ('box', 'key', 'it')
 
@@ -341,6 +349,8 @@ class Interp:
             return a.idx - b.idx
         if isinstance(a, Ptr) and isinstance(b, Ptr) and a.rec is None and b.rec is None and op == '-':
             return 0
+        if isinstance(a, EndPtr) and isinstance(b, Ptr) and not isinstance(b, EndPtr) and a.rec is b.rec and op == '-':
+            return a.size
         if isinstance(a, Ptr) and a.rec is None and isinstance(b, int) and op in ('+', '-') and b == 0:
             return a
         if isinstance(a, Co) and isinstance(b, Co) and op == '-':
